@@ -31,7 +31,8 @@ var plainIdents = []string{"a", "b", "c", "host", "usage_user", "_x", "a1", "val
 var quotedIdents = []string{"my col", "a-b", "1a", "", "select", "from", "name", "key", "user", "end", "left", "true", "notin", "and",
 	"a.b", "é", "名前", "it's", "a\"b", "a\\b", "a\nb", "tab\there", "a b.c d", "A B", "ümlaut", "x/y", "semi;colon", "q'\"\\", "  ", "*", "-1", "a::float"}
 
-var bareKeywords = []string{"name", "key", "select", "from", "user", "end", "left", "node", "tag", "field", "type", "duration", "on", "measurement", "as"}
+// (not "select": `x IN (select …)` is a sub-select, which the model does not cover)
+var bareKeywords = []string{"name", "key", "from", "user", "end", "left", "node", "tag", "field", "type", "duration", "on", "measurement", "as"}
 
 var strPool = []string{"", "x", "abc", "it's", "say \"hi\"", "back\\slash", "line\nbreak", "tab\there", "é", "日本語", "a'b\"c\\d\ne",
 	"2020-01-01T00:00:00Z", "2020-01-01", "2020-01-02 10:00:00", "2020-01-01T00:00:00.123456789Z", "1.1.1.1/8", "x%", "%", "\\", "''", "\\n", "a/b", " lead", "trail ",
